@@ -1,10 +1,13 @@
 package masks
 
 import (
+	"strings"
+
 	"github.com/mennanov/fmutils"
 	"google.golang.org/grpc/codes"
 	"google.golang.org/grpc/status"
 	"google.golang.org/protobuf/proto"
+	"google.golang.org/protobuf/reflect/protoreflect"
 	"google.golang.org/protobuf/types/known/fieldmaskpb"
 )
 
@@ -41,11 +44,12 @@ func (r *ResponseFilter) Filter(msg proto.Message) {
 	if msg == nil {
 		return
 	}
-	if len(r.fields.GetPaths()) == 0 {
+	paths := filterPaths(msg, r.fields.GetPaths())
+	if len(paths) == 0 {
 		proto.Reset(msg)
 		return
 	}
-	fmutils.Filter(msg, r.fields.GetPaths())
+	fmutils.Filter(msg, paths)
 }
 
 // FilterClone is like Filter but clones and returns a new msg instead of modifying the original.
@@ -56,14 +60,55 @@ func (r *ResponseFilter) FilterClone(msg proto.Message) proto.Message {
 	if msg == nil {
 		return msg
 	}
-	if len(r.fields.GetPaths()) == 0 {
-		clone := proto.Clone(msg)
+	clone := proto.Clone(msg)
+	paths := filterPaths(msg, r.fields.GetPaths())
+	if len(paths) == 0 {
 		proto.Reset(clone)
 		return clone
 	}
-	clone := proto.Clone(msg)
-	fmutils.Filter(clone, r.fields.GetPaths())
+	fmutils.Filter(clone, paths)
 	return clone
+}
+
+// filterPaths prepares the paths of a read mask for fmutils, which expects valid paths and panics otherwise:
+// a path can't continue below a scalar, map or repeated scalar field. Validate reports such a path, a read that gets
+// one anyway selects the field the path stops at.
+//
+// Empty paths select nothing.
+func filterPaths(msg proto.Message, paths []string) []string {
+	md := msg.ProtoReflect().Descriptor()
+	res := make([]string, 0, len(paths))
+	for _, path := range paths {
+		if path = traversablePrefix(md, path); path != "" {
+			res = append(res, path)
+		}
+	}
+	return res
+}
+
+// traversablePrefix returns path cut after the first field that paths can't continue below.
+// Paths that mention unknown fields are returned as they are, they select nothing.
+func traversablePrefix(md protoreflect.MessageDescriptor, path string) string {
+	path = strings.Trim(path, ".")
+	end := 0
+	for end < len(path) {
+		name := path[end:]
+		if i := strings.IndexByte(name, '.'); i >= 0 {
+			name = name[:i]
+		}
+		end += len(name)
+		fd := md.Fields().ByName(protoreflect.Name(name))
+		if fd == nil {
+			return path
+		}
+		if fd.IsMap() || fd.Message() == nil {
+			// map entries and scalars (repeated or not) have no fields to select from
+			return path[:end]
+		}
+		md = fd.Message()
+		end++ // the separator
+	}
+	return path
 }
 
 type ResponseFilterOption func(*ResponseFilter)
